@@ -291,7 +291,15 @@ def generate(unit, template_path, repo=None, canary=False):
         if 'closure' in kv:
             # R9 closure lifting: the k-th closure literal with a block body inside the item becomes a free function
             # whose signature (parameters = closure parameters + captures) is given by the template
-            kth = int(kv['closure'][0])
+            csel = kv['closure'][0]
+            want_params = None
+            if csel.startswith('params:'):
+                spec_ = csel[len('params:'):]
+                pp, _, oo = spec_.partition('#')
+                want_params = [x.strip() for x in pp.split(',') if x.strip()]
+                kth = int(oo or 1)
+            else:
+                kth = int(csel)
             stt = src.st
             cnt = 0
             found = None
@@ -309,7 +317,7 @@ def generate(unit, template_path, repo=None, canary=False):
                                 j = match_close(stt, j)
                             j += 1
                         pe = j
-                    if stt[pe + 1].text == '{':
+                    if stt[pe + 1].text == '{' and (want_params is None or [t2.text for t2 in stt[i + 1:pe] if t2.kind == 'id'] == want_params):
                         cnt += 1
                         if cnt == kth:
                             found = (i, pe, pe + 1, match_close(stt, pe + 1))
@@ -604,6 +612,9 @@ def generate(unit, template_path, repo=None, canary=False):
                     if k < 1 or k > len(loops):
                         raise AnchorError(f'{fi.name}: proof anchor loop {k} not found')
                     inserts.append((loops[k - 1][1] + 1, '\n' + ptxt.rstrip() + '\n', ('contract', fi.name, 'proof')))
+                elif 'at' in pkv and pkv['at'][0] == 'end':
+                    # just before the closing brace of the body (only sound as a hint position when the body ends with a statement, not a tail expression)
+                    inserts.append((lay['body_close'], '\n' + ptxt.rstrip() + '\n', ('contract', fi.name, 'proof')))
                 elif 'at' in pkv and pkv['at'][0] == 'start':
                     inserts.append((lay['body_open'] + 1, '\n' + ptxt.rstrip() + '\n', ('contract', fi.name, 'proof')))
                 else:
